@@ -162,6 +162,10 @@ class BaseConnection(object):
         '''Return whether the connection is closed.'''
         return not self.writer or not self.reader or self.reader.at_eof()
 
+    def has_buffered_data(self) -> bool:
+        '''Return whether received data is waiting to be read.'''
+        return bool(self.reader and getattr(self.reader, '_buffer', None))
+
     def state(self) -> ConnectionState:
         '''Return the state of this connection.'''
         return self._state
